@@ -13,7 +13,9 @@ PROPERTY = "C15"
 RULE = ("n = 1..3 qubits; base circuit on 2n visible modes generated from arbitrary single-qubit unitaries (haar 2x2 "
         "blocks), named gates, rotations, CZ/CNOT post-selected or heralded with either target, SWAP, CCZ/CCNOT; the "
         "experiment callback returns the exact heralded, dual-rail post-selected outcome weights of every circuit it "
-        "receives (own permanent). Oracle: rho = |psi><psi| with psi the first column of the Kronecker-algebra "
+        "receives (own permanent), optionally with a different total per circuit and with last-place rounding varied; "
+        "heralded modes declared directly on the base circuit before / after / inside the qubit register; 0-2 extra "
+        "callback arguments (experiment_args). Oracle: rho = |psi><psi| with psi the first column of the Kronecker-algebra "
         "reference unitary (1e-8), Hermitian, unit trace, fidelity 1 (1e-6); the callback receives exactly 3^n "
         "circuits which are, bijectively, the base circuit followed by the basis changes of the settings {X,Y,Z}^n "
         "(compared through U_full up to output phases); base circuit snapshot unchanged; a second process() call "
